@@ -237,7 +237,7 @@ def run(ctx):
     ok = len(mr) == 1 and [norm(x) for x in mr[0].call.args] == ["ibuffer", "obuffer", "odomain"]
     ctx.ob("X1", CDC, "BusSynchronizer", "data crosses only through MultiReg(ibuffer, obuffer, odomain)", ok, "" if ok else f"{mr}")
     oo = [a for a in fx.find() if a.t == "self.o" and q.compatible(a.pyguards, wide)]
-    ok = len(oo) == 1 and oo[0].domain == "sync:odomain" and oo[0].v == "obuffer" and B.equivalent(B.guard_formula(oo[0].guards), B.A("ping_o"))
+    ok = len(oo) == 1 and oo[0].domain == "sync:odomain" and oo[0].v == "obuffer" and B.equivalent(oo[0].eff(), B.A("ping_o"))
     ctx.ob("X3", CDC, "BusSynchronizer", "o captured from obuffer in odomain under the registered request", ok,
            "" if ok else f"{[(a.domain, a.v, a.gtext()) for a in oo]}")
     po = fx.find(target="ping_o")
@@ -245,7 +245,7 @@ def run(ctx):
     ctx.ob("X3", CDC, "BusSynchronizer", "extra request flop: ping_o = registered _ping.o in odomain", ok,
            "" if ok else f"{[(a.domain, a.v) for a in po]}: the request could overtake the 2-flop data path")
     ib = fx.find(target="ibuffer")
-    ok = len(ib) == 1 and ib[0].domain == "sync:idomain" and ib[0].v == "self.i" and B.equivalent(B.guard_formula(ib[0].guards), B.A("self._pong.o"))
+    ok = len(ib) == 1 and ib[0].domain == "sync:idomain" and ib[0].v == "self.i" and B.equivalent(ib[0].eff(), B.A("self._pong.o"))
     ctx.ob("X3", CDC, "BusSynchronizer", "ibuffer loaded only on the acknowledge (held while sampled)", ok,
            "" if ok else f"{[(a.domain, a.v, a.gtext()) for a in ib]}")
     pi = fx.find(domain="comb", target="self._ping.i")
